@@ -24,6 +24,8 @@
                                 not declared or the parts naming it carry no stake in total
     c04_block_bet_phase / c04_block_part_phase   the two phases separately (BatchMarketSettlements moves only bet shares,
                                 BatchOrderBookSettlements only participation shares)
+    c04_block_user_account      for a user account (no custody account) the change is the sum of what it is due in all its
+                                roles — the statement the harness monitor `payout_amounts` evaluates on the real chain
     c04_block_no_role_unchanged an account that is no custody account and has no role in the block (not the bettor of a
                                 bet settled by it, not the depositor of a participation paid by it, not the creator of
                                 the market of either) keeps its balance over the end-block
@@ -110,6 +112,31 @@ theorem c04_block_part_phase {s1 s' : State} (hA1 : RetAll s1) {fuel n i : Nat}
   refine ⟨?_, (obEndBlock_same _ _ _ _ _ h2).1⟩
   have := hP.bal
   omega
+
+/-- C04.t  A USER ACCOUNT ONLY RECEIVES — the statement of the harness monitor `payout_amounts`. For an account that is
+    none of the three custody accounts, the balance change over the end-block is the sum of what it is due in all its
+    roles: as bettor the winnings (WON) or the stake (REFUNDED) of every bet settled by this block, plus that bet's fee
+    on a refund; as market creator the fee of every bet settled on a declared result and the fee of every participation
+    paid by this block that carried stake on a declared result; as depositor liquidity ± realised profit (declared) or
+    the liquidity of every participation paid by this block, plus its fee when the market is not declared or the
+    participation carried no stake. -/
+theorem c04_block_user_account (p : Params) (bal : List (Nat × Int)) (h t : Nat) (ops : List Op)
+    (h0 : getBal bal ACC_POOL = 0 ∧ getBal bal ACC_BETFEE = 0 ∧ getBal bal ACC_HOUSEFEE = 0)
+    (hwf : ∀ o ∈ ops, o.userSigned') :
+    let s := run (initState p bal h t) ops
+    let s' := (step s .endBlock).1
+    (step s .endBlock).2 ≠ .halt → ∀ a, isModuleAcc a = false →
+      getBal s'.bal a - getBal s.bal a =
+        sumBy (fun x => match getMarket s x.market with
+            | some m => c4b_betCredit a m.creator x
+            | none => 0) (s'.bets.filter (c4b_settledNow s))
+        + sumBy (fun b => match getMarket s b.uid with
+            | some m => sumBy (c4b_partCredit a s'.bets b.uid m) (b.parts.filter (c4b_paidNow s b.uid))
+            | none => 0) s'.books := by
+  intro s s' hnh a hmod
+  have hA : RetAll s := c04_invariants p bal h t ops h0 hwf
+  have hI : BetIdx s := bp_init_betIdx p bal h t ops
+  exact c4b_endBlockO_user hA hI (c4b_step_endBlock hnh) a hmod
 
 /-- C04.q  NO ROLE, NO CHANGE. An account that is none of the three custody accounts, is not the bettor of a bet
     settled by this block nor the creator of such a bet's market, and is not the depositor of a participation paid by
